@@ -5,6 +5,7 @@ package main
 // KNOWN_FINDINGS.txt (the defects are recorded, not repaired); a new site of the same kind is a violation.
 
 import (
+	"fmt"
 	"strings"
 
 	"golang.org/x/tools/go/ssa"
@@ -68,7 +69,14 @@ func cSingleValued(p *Program, r *Report, rule string, label string, fns []strin
 
 // cAsciiTokens: handshake tokens are compared and trimmed with ASCII rules (RFC 7230 tokens, OWS = SP / HTAB); the
 // Unicode-aware strings.EqualFold / strings.TrimSpace accept look-alikes (KELVIN SIGN, LONG S) and strip NBSP etc.
+// the library's certified ASCII helpers (C11.ascii.fold / C11.ascii.trim decide their bodies)
+const (
+	foldFn = "asciiEqualFold"
+	trimFn = "trimOWS"
+)
+
 func cAsciiTokens(p *Program, r *Report, rule string, fns []string) {
+	cAsciiHelpers(p, r, rule)
 	for _, fname := range fns {
 		fn := p.Func(fname)
 		if fn == nil {
@@ -95,40 +103,199 @@ func cAsciiTokens(p *Program, r *Report, rule string, fns []string) {
 	}
 }
 
-// cWindowBits: a *_max_window_bits parameter is accepted only with a value 8..15 (RFC 7692 §7.1.2); a prefix test
-// alone accepts "=abc", "=16", "=" and duplicates.
-func cWindowBits(p *Program, r *Report, rule string, fns []string) {
-	for _, fname := range fns {
+// cAsciiHelpers decides the bodies of the two helpers the token rules rely on.
+func cAsciiHelpers(p *Program, r *Report, rule string) {
+	// asciiLower: 'A'..'Z' ↦ +32, every other byte unchanged
+	if fn := p.FuncOpt("asciiLower"); fn != nil {
+		p.runTable(r, tableSpec{
+			Rule: rule + ".fold", Fn: fn, Atoms: []Atom{intAtom("param:b", []int64{0, 9, 32, 47, 48, 57, 64, 65, 66, 89, 90, 91, 96, 97, 122, 123, 127, 128, 0xc5, 0xe2, 255})},
+			Classify: func(v Valuation, pa *Path) string {
+				if pa.End != "return" {
+					return pa.End
+				}
+				if c, ok := avInt(pa.Ret[0]); ok {
+					return fmt.Sprint(c)
+				}
+				return pa.Ret[0].Key()
+			},
+			Oracle: func(v Valuation) []string {
+				b := v.Int("param:b")
+				if b >= 'A' && b <= 'Z' {
+					b += 'a' - 'A'
+				}
+				return []string{fmt.Sprint(b)}
+			},
+			What: "asciiLower maps the ASCII capital letters to their small forms and leaves every other byte (digits, punctuation, the bytes of multi-byte UTF-8 sequences) unchanged",
+		})
+	}
+	if fn := p.Func(foldFn); fn != nil {
+		p.forAllPaths(r, rule+".fold", fn, "byte-wise comparison under ASCII folding", Opts{Unroll: 2},
+			foldFn+" returns false when the lengths differ or some byte pair differs after asciiLower, and true only after every index was compared; no Unicode-aware function is involved",
+			func(pa *Path) (bool, string) {
+				for _, e := range pa.Events {
+					if e.Kind == "call" && !strings.HasPrefix(e.Callee, "builtin ") && e.Callee != "asciiLower" {
+						return false, "calls " + e.Callee
+					}
+				}
+				if pa.End != "return" {
+					return true, ""
+				}
+				b, ok := avBool(pa.Ret[0])
+				if !ok {
+					return false, "returns " + pa.Ret[0].Key()
+				}
+				lenEq, lenKnown := decidedLike(pa, "len(param:s) == len(param:t)")
+				mism := 0
+				for _, d := range pa.Decisions {
+					k := stripSites(d.Key)
+					if strings.Contains(k, "call:asciiLower") && strings.Contains(k, "==") && !d.Val {
+						mism++
+					}
+				}
+				for _, al := range pa.Calls("asciiLower") {
+					a := argKey(al, 0)
+					if !strings.HasPrefix(a, "index(param:s,") && !strings.HasPrefix(a, "index(param:t,") {
+						return false, "asciiLower of " + a
+					}
+				}
+				if b {
+					if !lenKnown || !lenEq {
+						return false, "true without equal lengths"
+					}
+					if mism > 0 {
+						return false, "true although a byte pair differed"
+					}
+					// exhausted: the loop condition i < len(s) was found false
+					if more, known := decidedLike(pa, "len(param:s) > "+fmt.Sprint(len(pa.Calls("asciiLower"))/2)); !known || more {
+						return false, "true before every index was compared"
+					}
+				} else if lenKnown && lenEq && mism == 0 {
+					return false, "false without a difference"
+				}
+				return true, ""
+			})
+	}
+	if fn := p.Func(trimFn); fn != nil {
+		p.forAllPaths(r, rule+".trim", fn, "SP / HTAB only", Opts{},
+			trimFn+" returns strings.Trim(s, cutset) with the cutset made of exactly the space and the horizontal tab (RFC 7230 OWS)",
+			func(pa *Path) (bool, string) {
+				if pa.End != "return" {
+					return true, ""
+				}
+				tr := pa.Calls("strings.Trim")
+				if len(tr) != 1 || argKey(tr[0], 0) != "param:s" || pa.Ret[0].Key() != tr[0].Res.Key() {
+					return false, "returns " + expandCalls(pa, pa.Ret[0].Key())
+				}
+				cut, ok := avStr(tr[0].Args[1])
+				if !ok || !(cut == " \t" || cut == "\t ") {
+					return false, "cutset " + argKey(tr[0], 1)
+				}
+				return true, ""
+			})
+	}
+}
+
+// cWindowBits: a *_max_window_bits parameter is accepted only with a value 8..15 without leading zeros (RFC 7692
+// §7.1.2). Decided as the window-bits rows of the two per-parameter decision tables: every well-formed value and
+// malformed neighbours of each kind (out of range, leading zero, sign, text, empty, white space) on both sides.
+func cWindowBits(p *Program, r *Report, rule string) {
+	bits := func(s string) bool { return strings.Contains(s, "_max_window_bits") }
+	c14serverTable(p, r, rule, bits)
+	c14clientTable(p, r, rule, bits)
+}
+
+// c14dup: an offer or response that repeats a parameter name is malformed (RFC 7692 §7): acceptDeflate declines it and
+// verifyServerExtensions fails before looking at any parameter; duplicateParam compares the names (the text before
+// '=') of every pair.
+func c14dup(p *Program, r *Report, rule string) {
+	for _, fname := range []string{"acceptDeflate", "verifyServerExtensions"} {
 		fn := p.Func(fname)
 		if fn == nil {
 			continue
 		}
-		prefix, parsed := false, false
-		var at ssa.Instruction
-		for _, b := range p.blocksOf(fn) {
-			for _, in := range b.Instrs {
-				call, ok := in.(*ssa.Call)
+		fname := fname
+		p.forAllPaths(r, rule, fn, "duplicated parameter names refused", Opts{Unroll: 1},
+			fname+" asks duplicateParam about the parameter list of the extension it is deciding and refuses when it says yes; no parameter is accepted on a path that did not ask",
+			func(pa *Path) (bool, string) {
+				dp := pa.Calls("duplicateParam")
+				accepted := pa.End == "loop" || (pa.End == "return" && (fname == "acceptDeflate" && func() bool { b, ok := avBool(pa.Ret[1]); return !ok || b }() ||
+					fname == "verifyServerExtensions" && retErr(pa) != "nonnil" && pa.Ret[0].Key() != "nil"))
+				if !accepted {
+					return true, ""
+				}
+				if len(dp) != 1 {
+					return false, fmt.Sprintf("%d duplicateParam calls on an accepting path", len(dp))
+				}
+				a := argKey(dp[0], 0)
+				if !(strings.HasSuffix(a, ".params") || strings.HasPrefix(a, "param:")) {
+					return false, "duplicateParam asked about " + a
+				}
+				if v, k := pa.Decided(dp[0].Res.Key()); !k || v {
+					return false, "accepted although duplicateParam was not found false"
+				}
+				return true, ""
+			})
+	}
+	// the helper: true only after two names compared equal, false only after every comparison failed
+	if fn := p.Func("duplicateParam"); fn != nil {
+		p.forAllPaths(r, rule, fn, "pairwise comparison of parameter names", Opts{Unroll: 2},
+			"duplicateParam returns true exactly when paramName of two different elements of its argument compared equal, and false only after the pairs were exhausted",
+			func(pa *Path) (bool, string) {
+				if pa.End != "return" {
+					return true, ""
+				}
+				b, ok := avBool(pa.Ret[0])
 				if !ok {
-					continue
+					return false, "returns " + pa.Ret[0].Key()
 				}
-				f := call.Call.StaticCallee()
-				if f == nil {
-					continue
-				}
-				switch {
-				case qualName(f) == "strings.HasPrefix" && len(call.Call.Args) == 2:
-					if k, ok := call.Call.Args[1].(*ssa.Const); ok && k.Value != nil && strings.Contains(k.Value.ExactString(), "_max_window_bits=") {
-						prefix, at = true, call
+				eq := 0
+				for _, d := range pa.Decisions {
+					k := stripSites(d.Key)
+					if strings.Contains(k, "call:paramName") && strings.Contains(k, "==") {
+						if d.Val {
+							eq++
+						}
 					}
-				case strings.HasPrefix(qualName(f), "strconv."):
-					parsed = true
 				}
-			}
-		}
-		if prefix {
-			r.Check(rule, fname, "value of *_max_window_bits", p.InstrPos(at), parsed,
-				"a window-bits parameter is accepted only after its value was parsed and found in 8..15", fname+" accepts any text after the '='")
-		}
+				if b && eq == 0 {
+					return false, "true without two equal names"
+				}
+				if !b && eq > 0 {
+					return false, "false although two names were equal"
+				}
+				for _, pn := range pa.Calls("paramName") {
+					if !strings.HasPrefix(argKey(pn, 0), "elem(param:params") && !strings.HasPrefix(argKey(pn, 0), "elem(slice(param:params") {
+						return false, "paramName of " + argKey(pn, 0)
+					}
+				}
+				return true, ""
+			})
+	}
+	// paramName: the text before the first '='
+	if fn := p.Func("paramName"); fn != nil {
+		p.forAllPaths(r, rule, fn, "name = text before the first '='", Opts{},
+			"paramName returns p[:i] for i = strings.IndexByte(p, '=') when there is one (i >= 0) and p itself otherwise",
+			func(pa *Path) (bool, string) {
+				if pa.End != "return" {
+					return true, ""
+				}
+				ib := pa.Calls("strings.IndexByte")
+				if len(ib) != 1 || argKey(ib[0], 0) != "param:p" || argKey(ib[0], 1) != "61" {
+					return false, "no strings.IndexByte(p, '=')"
+				}
+				found, known := pa.Decided("(" + ib[0].Res.Key() + " < 0)")
+				ret := pa.Ret[0].Key()
+				if known && found {
+					if ret != "param:p" {
+						return false, "without '=' returns " + ret
+					}
+					return true, ""
+				}
+				if !strings.HasPrefix(ret, "slice(param:p") {
+					return false, "with '=' returns " + ret
+				}
+				return true, ""
+			})
 	}
 }
 
